@@ -1,5 +1,6 @@
 """Oracles evaluated on the structural exploration (mc.explore.bfs): C01, C06, C07, C12(b), C19.
 One exploration shape, several invariants; each check module picks its oracle and profiles."""
+import os
 import collections
 import xml.etree.ElementTree as ET
 
@@ -45,10 +46,10 @@ def oracle_C01(col):
         try:
             tags = impl.child_tags(o.value)
         except ET.ParseError:
-            col.add(T, 'invalid-child-sequence', [pre.names, opj(op), 'not-well-formed'], pre, op)
+            col.add(T, 'invalid-child-sequence', [pre.knames, opj(op), 'not-well-formed'], pre, op)
             return
         if not nfa(T).accepts(tags):
-            col.add(T, 'invalid-child-sequence', [pre.names, opj(op), tags], pre, op, observed=tags)
+            col.add(T, 'invalid-child-sequence', [pre.knames, opj(op), tags], pre, op, observed=tags)
         else:
             col.stats['valid_outputs'] += 1
     return f
@@ -60,7 +61,7 @@ def oracle_C06(col):
     def f(T, pre, op, st, o):
         el = st.el
         exp = [st.made[i] for i in st.model]
-        key = [pre.names, opj(op)] + ([] if el.xsd_check else ['unchecked'])
+        key = [pre.knames, opj(op)] + ([] if el.xsd_check else ['unchecked'])
         r_ins = impl.call(lambda: list(el.get_children(ordered=False)))
         r_ord = impl.call(lambda: list(el.get_children(ordered=True)))
         col.stats['states_checked'] += 1
@@ -122,7 +123,7 @@ def oracle_C07(col):
         col.stats['successful_additions_judged'] += 1
         post = st.names()
         if not A.completable(post):
-            col.add(T, 'dead-end-accepted', [pre.names, opj(op)], pre, op, observed=post)
+            col.add(T, 'dead-end-accepted', [pre.knames, opj(op)], pre, op, observed=post)
     return f
 
 
@@ -140,7 +141,7 @@ def oracle_C12b(col):
         # "a child is never rejected while it, together with the children already present, can still be arranged
         # into (part of) a valid sequence" - judged only from states reached by accepted additions
         if A.completable(pre.names) and A.completable(pre.names + [op[1]]):
-            col.add(T, 'compatible-child-rejected', [pre.names, op[1]], pre, op, observed=o.as_json())
+            col.add(T, 'compatible-child-rejected', [pre.knames, op[1]], pre, op, observed=o.as_json())
         else:
             col.stats['rejections_justified'] += 1
     return f
@@ -171,9 +172,9 @@ def oracle_C19(col):
             col.stats['exc:' + o.exc] += 1
         k = classify_exception(o, op)
         if k:
-            col.add(T, k, [pre.names, opj(op)], pre, op, observed=o.as_json())
+            col.add(T, k, [pre.knames, opj(op)], pre, op, observed=o.as_json())
         if o.output:
-            col.add(T, 'printed', [pre.names, opj(op)], pre, op, observed=o.output[:200])
+            col.add(T, 'printed', [pre.knames, opj(op)], pre, op, observed=o.output[:200])
     return f
 
 
@@ -187,19 +188,37 @@ FACTORIES['collector'] = Collector
 def run_struct(pid, tier, oname, profiles, extra=None, min_guard=None):
     """profiles: list of (profile, quick budget, thorough budget)"""
     run_ = core.Run(pid, tier)
+    if os.environ.get('VERIF_PROFILES'):
+        # maintainer switch (never set by the registered commands): 'prof:quick:thorough,prof:quick:thorough'
+        profiles = [(a, int(b), int(c)) for a, b, c in (x.split(':') for x in os.environ['VERIF_PROFILES'].split(','))]
     r1 = explore.r1_prepare()
     specs = []
+    only = set(filter(None, os.environ.get('VERIF_TYPES', '').split(',')))   # maintainer switch, never set by a registered command
     for T in impl.TYPES:
+        if only and T not in only:
+            continue
         for (prof, bq, bt) in profiles:
-            if prof in ('fwd', 'deep'):
-                fa = explore.forward_alphabet(T) if prof == 'fwd' else explore.deep_alphabet(T)
-                if fa:
-                    specs.append(explore.Spec(T, prof, bq if tier == 'quick' else bt, oname, sigma=fa))
-                continue
-            if prof.endswith('!unchecked'):
-                specs.append(explore.Spec(T, prof.split('!')[0], bq if tier == 'quick' else bt, oname, check=False))
-                continue
-            specs.append(explore.Spec(T, prof, bq if tier == 'quick' else bt, oname))
+            # profile syntax: <operation profile>[@fwd|@deep][!unchecked]; 'fwd' / 'deep' alone imply their alphabet
+            budget = bq if tier == 'quick' else bt
+            if not budget:
+                continue        # profile not part of this tier
+            check = not prof.endswith('!unchecked')
+            base = prof.split('!')[0]
+            alpha = None
+            if '@' in base:
+                base, alpha = base.split('@')
+            elif base in ('fwd', 'deep'):
+                alpha = base
+            sigma = None
+            if alpha:
+                sigma = explore.forward_alphabet(T) if alpha == 'fwd' else explore.deep_alphabet(T)
+                if not sigma:
+                    continue
+            sp = explore.Spec(T, base, budget, oname, check=check, sigma=sigma)
+            if alpha and alpha != base:
+                sp.key = '%s/%s@%s%s' % (T, base, alpha, '' if check else '!unchecked')
+                sp.tag = '%s@%s' % (base, alpha)
+            specs.append(sp)
     res = explore.run_bfs(specs, FACTORIES)
     tot = collections.Counter()
     ostats = collections.Counter()
@@ -220,7 +239,7 @@ def run_struct(pid, tier, oname, profiles, extra=None, min_guard=None):
             guards.append(f"type {r['T']} profile {r['profile']}: no level completed")
     if len(per_type) != 94:
         guards.append(f'{len(per_type)} types explored, expected 94')
-    for prof in {p[0].split('!')[0] for p in profiles}:
+    for prof in {p[0].split('!')[0].split('@')[0] for p in profiles}:
         samples.append({'type': 'note', 'profile': prof,
                         'history': [list(o) for o in explore.ops_for('note', ['pitch'], [0], prof,
                                                                       explore.reduced_alphabet('note'))[:6]]})
